@@ -31,6 +31,7 @@ type LoadOptions struct {
 }
 
 type Loaded struct {
+	Repo     string
 	Prog     *ssa.Program
 	Pkgs     map[string]*ssa.Package
 	Overlay  map[string]string // virtual path -> real path (for native replay)
@@ -90,7 +91,7 @@ func Load(opt LoadOptions) (*Loaded, error) {
 	}
 	prog, spkgs := ssautil.AllPackages(pkgs, ssa.InstantiateGenerics)
 	prog.Build()
-	l := &Loaded{Prog: prog, Pkgs: map[string]*ssa.Package{}, Overlay: omap}
+	l := &Loaded{Repo: opt.Repo, Prog: prog, Pkgs: map[string]*ssa.Package{}, Overlay: omap}
 	for _, sp := range spkgs {
 		if sp == nil {
 			continue
@@ -120,6 +121,7 @@ func NewExec(l *Loaded) *Exec {
 			x.typeAssertErrType = types.NewPointer(m.Type())
 		}
 	}
+	x.RepoDir = l.Repo
 	x.registerIntrinsics()
 	return x
 }
